@@ -38,6 +38,7 @@ type Contract struct {
 	Allocates bool
 	FuncTypes map[string]string // param or Type.field -> "pure"
 	Loops     map[int][]Clause
+	Steps     map[int][]Clause // per-iteration two-state clauses (prev(e) = value at the loop head)
 	Asserts   []Clause
 	Uses      []Clause // lemma instantiations at entry
 	DeadRets  map[int]bool // returns (by source order) that are unreachable under the contract
@@ -206,7 +207,7 @@ func (ct *ContractTable) loadContractFile(path string) error {
 			cur.Pure = true
 		case "func", "iface", "lemma":
 			key := rest
-			c := &Contract{Kind: kw, FuncTypes: map[string]string{}, Loops: map[int][]Clause{}, File: path, Line: rl.line, Pkg: defaultPkg}
+			c := &Contract{Kind: kw, FuncTypes: map[string]string{}, Loops: map[int][]Clause{}, Steps: map[int][]Clause{}, File: path, Line: rl.line, Pkg: defaultPkg}
 			if kw == "lemma" {
 				// lemma name(x T, y T)
 				i := strings.Index(rest, "(")
@@ -308,19 +309,23 @@ func (ct *ContractTable) loadContractFile(path string) error {
 				cur.FuncTypes[strings.TrimSuffix(fields[1], ":")] = fields[2]
 			case "loop":
 				// loop N invariant [tag] expr
-				if len(fields) < 4 || fields[2] != "invariant" {
+				if len(fields) < 4 || (fields[2] != "invariant" && fields[2] != "step") {
 					return fmt.Errorf("%s:%d: bad loop clause", path, rl.line)
 				}
 				n, err := strconv.Atoi(fields[1])
 				if err != nil {
 					return fmt.Errorf("%s:%d: bad loop ordinal", path, rl.line)
 				}
-				r2 := strings.TrimSpace(rest[strings.Index(rest, "invariant")+len("invariant"):])
+				r2 := strings.TrimSpace(rest[strings.Index(rest, fields[2])+len(fields[2]):])
 				c, err := mkClause(r2, rl.line)
 				if err != nil {
 					return err
 				}
-				cur.Loops[n] = append(cur.Loops[n], c)
+				if fields[2] == "step" {
+					cur.Steps[n] = append(cur.Steps[n], c)
+				} else {
+					cur.Loops[n] = append(cur.Loops[n], c)
+				}
 			}
 		}
 	}
